@@ -36,6 +36,7 @@ type Program struct {
 	SpecFuncs map[string]*SpecFunc      // by Key()
 	Ghosts    map[string]*GhostField    // owner key + "." + name
 	Axioms    []AxiomDecl
+	Lemmas    []LemmaDecl
 	SpecFiles []*SpecFile
 	HookFiles []string // comment-only verif-tagged files found in /repo
 	Trusted   []string // scan results: trusted/permissive contracts, axioms, abstract functions
@@ -201,6 +202,10 @@ func (p *Program) register() error {
 			if c.Mode == "trusted" {
 				p.Trusted = append(p.Trusted, "trusted contract (assumed, not verified): "+shortFn(c.Key()))
 			}
+		}
+		for _, l := range sf.Lemmas {
+			l.Pkg = p.resolvePkg(l.Pkg)
+			p.Lemmas = append(p.Lemmas, l)
 		}
 		for _, a := range sf.Axioms {
 			a.Pkg = p.resolvePkg(a.Pkg)
